@@ -48,7 +48,7 @@ EXTRA={
             '//@ ensures internal [C04] stored: !wrongType ==> allsel(i, 0, len(fieldNames), m.vdom[fieldNames[i]])',
             '//@ ensures [C04] options.seen: gHashOptions == options',
             '//@ requires [C13] samelen: len(values) >= len(fieldNames)'],
- 'getKey': ['//@ ensures free strsize: len(val) <= 536870912'],
+ 'getKey': ['//@ ensures free strsize: len(val) <= 536870912', '//@ ensures [C07,C06] readonly: !mutated'],
  'setRange': ['//@ requires [C13,C02] offset.range: 0 <= offset && offset <= 536870912 && len(substring) <= 536870912 - offset'],
  'setHashTableFields': ['//@ requires [C13] samelen: len(values) >= len(fieldNames)'],
  'deleteHashTableFields': ['//@ loop "for _, fieldName := range fieldNames" invariant [C04] gone: allsel(i, 0, ri1, !m.vdom[fieldNames[i]])',
@@ -161,7 +161,8 @@ EXTRA={
  'setKey': ['//@ ensures internal [C02] nx.kept: exists && flagHasOne(options, SET_NOT_EXIST) ==> !mutated',
             '//@ ensures internal [C02] xx.missing: !exists && flagHasOne(options, SET_EXISTS) ==> !mutated && val.data == nil',
             '//@ ensures internal [C02] get.old: exists && flagHasOne(options, bitflags(SET_GET)) && valid != VALUE_WRONG_TYPE ==> istype(val.data, respBulkString)',
-            '//@ ensures internal [C02] stored: mutated ==> dsc.ds.data.vdom[keyName] && istype(dsc.ds.data.vval[keyName], *storeKey) && unbox(dsc.ds.data.vval[keyName], *storeKey) == newSk && flagHasOne(newSk.flags, FLAG_KEY_TYPE_STRING) && newSk.expiresAt == ite(exists && flagHasOne(options, SET_KEEP_TTL), old(oldSk.expiresAt), expiration)',
+            '//@ ensures internal [C02] stored: mutated ==> dsc.ds.data.vdom[keyName] && istype(dsc.ds.data.vval[keyName], *storeKey) && unbox(dsc.ds.data.vval[keyName], *storeKey) == newSk && flagHasOne(newSk.flags, FLAG_KEY_TYPE_STRING) && newSk.expiresAt == ite(exists && (flagHasOne(options, SET_KEEP_TTL) || flagHasOne(options, SET_APPEND)), old(oldSk.expiresAt), expiration)',
+            '//@ ensures internal [C07] append.keeps.deadline: mutated && exists && flagHasOne(options, SET_APPEND) ==> newSk.expiresAt == old(oldSk.expiresAt)',
             '//@ ensures internal [C02] value: mutated && !flagHasOne(options, SET_APPEND) ==> istype(newSk.payload, []byte) && len(unbox(newSk.payload, []byte)) == len(str)'],
  'dictScanUnlocked': ['//@ callback isMatch','//@ pure','//@ endcallback'],
  'changeBits': ['//@ requires len(srcKeyNames) >= 1','//@ loop 1 invariant len(values) == ri1','//@ loop 2 invariant ri2 > 0 ==> resultBytes != nil'],
